@@ -9,6 +9,7 @@ import (
 
 	"pikemc/env"
 	"pikemc/oracle"
+	"pikemc/vsched"
 	"pikemc/xstate"
 )
 
@@ -19,6 +20,8 @@ type c11Sys struct {
 	keys  []string
 	lru   oracle.LRU
 	ptr   map[string]string // key -> identity of the entry the model believes resident
+	old   map[string]string // key -> identity of the entry that was evicted (must not come back)
+	keep  []interface{}     // every entry ever returned stays referenced, so an address is never reused
 	n     int
 }
 
@@ -31,19 +34,26 @@ func (s *c11Sys) Reset() {
 	oneShard("c1", s.limit, nil)
 	s.lru = oracle.LRU{Max: s.limit}
 	s.ptr = map[string]string{}
+	s.old = map[string]string{}
+	s.keep = nil
 }
 func (s *c11Sys) Apply(ev int) (string, string, string) {
 	k := s.keys[ev]
 	d := cache.GetDispatcher("c1")
 	hc := d.GetHTTPCache([]byte(k))
+	s.keep = append(s.keep, hc)
 	id := fmt.Sprintf("%p", hc)
 	victim, was := s.lru.Touch(k)
 	if victim != "" {
+		s.old[victim] = s.ptr[victim]
 		delete(s.ptr, victim)
 	}
 	obs := fmt.Sprintf("%s/resident=%v/evict=%s", k, was, victim)
 	if was && s.ptr[k] != id {
 		return obs, "resident-entry-replaced", fmt.Sprintf("%s should be resident (model %v) but a new entry was created", k, s.lru.Keys)
+	}
+	if !was && s.old[k] == id {
+		return obs, "evicted-entry-still-held", fmt.Sprintf("%s was dropped by the LRU (model %v) yet the very same entry object is handed out again: it is still held in memory beyond the shard limit", k, s.lru.Keys)
 	}
 	if !was {
 		for ok, oid := range s.ptr {
@@ -150,6 +160,13 @@ func init() {
 		if c.Thorough() {
 			depth = 9
 		}
+		pre := 2
+		if c.Thorough() {
+			pre = 3
+		}
+		U := c06Universe
+		c.RunSched(c06Conc(c, "conc3-inflight-eviction-limit1", 1, [][]c06Key{{U[0]}, {U[8]}, {U[5], U[2]}}, vsched.Bounds{Preempt: pre, Tick: 0, Data: -1, Total: -1}))
+		c.RunSched(c06Conc(c, "conc3-inflight-eviction-limit2", 2, [][]c06Key{{U[0]}, {U[8], U[3]}, {U[5], U[2]}}, vsched.Bounds{Preempt: pre, Tick: 0, Data: -1, Total: -1}))
 		for _, limit := range []int{1, 2, 3} {
 			c.runBFS(fmt.Sprintf("lru-bfs-limit%d", limit), &c11Sys{limit: limit, keys: []string{"GET a.com /a", "GET a.com /b", "GET a.com /c", "GET a.com /d"}}, depth, nil)
 		}
